@@ -103,6 +103,34 @@ func subset(r *rand.Rand, all []string, must ...string) []string {
 
 var allKinds = []string{"v1u", "v1o", "v2a", "v2", "loc", "loco"}
 
+// denomGrammar: native denominations of the token worlds. SDK denom alphabet, 1-4 '/'-separated
+// segments, segments shaped like ports, channel ids, client ids, "ibc", hashes.
+var denomGrammar = []string{"uatom", "a/b/foo", "gamm/pool/1", "transfer/channel-7/foo", "transfer/channel-0/bar", "factory/cosmos1abc/sub", "ibcx", "x/07-tendermint-0/y", "transfer/baz", "channel-0/qux"}
+
+func tokenOptions(o *CoreOptions, r *rand.Rand) {
+	o.Tokens = true
+	o.Kinds = []string{"t2"}
+	if r.Intn(3) == 0 {
+		o.Kinds = []string{"none"}
+	}
+	o.Chains = 2 + r.Intn(2)
+	o.Mesh = r.Intn(2) == 0
+	n := 1 + r.Intn(3)
+	perm := r.Perm(len(denomGrammar))
+	for i := 0; i < n; i++ {
+		o.Denoms = append(o.Denoms, denomGrammar[perm[i]])
+	}
+	o.WSend, o.WAsyncAck, o.WClose, o.WMut, o.WLocalVerify = 0, 0, 0, 0, 0
+	o.WXfer = 30
+	o.WRelay = 36
+	o.WDup = 8
+	o.WEarlyTmo = 5
+	o.WDonate = 2
+	o.WRestart = 1
+	o.MaxPkts = 24
+	o.TightTmo = 30
+}
+
 func init() {
 	coreCheck("C01",
 		"worlds of 2 real chains with mock apps on v1 unordered/ordered channels, v2 clients, v2-over-alias and localhost loopback; seeded relayers duplicate, replay, reorder and race every relay message with proofs at any height the run produced. Oracle: committed receive callbacks per (destination id, sequence) <= 1; a block made only of receives of already-received packets has an empty store diff. Non-trivial case = distinct (route kind, message kind, outcome, lifecycle state) of a committed redundant relay",
@@ -283,6 +311,52 @@ func init() {
 		},
 		func(ck *sim.Check) {
 			ck.RequiredProbes = []string{"localhost_verify_compared_with_store", "localhost_client_operation_refused", "send_ok_loc"}
+		})
+
+	tokAssume := func(ck *sim.Check) {
+		ck.Assumptions = append(ck.Assumptions,
+			"the ICS-20 reference model is specification-level: source/sink decided by string prefix of the denomination in the packet, voucher = ibc/ + upper-hex SHA-256 of the full path, registry of voucher paths built from the model's own mints (never from the keeper's denom store)",
+			"token worlds do not close channels or expire clients, so after faults stop every transfer must terminate when an honest relayer keeps relaying")
+	}
+	coreCheck("C30",
+		"2-3 real chains linked in a line or mesh by ICS-20 channels (v1, v2-over-alias on the same channel, v2 on plain clients) with the real rate-limit -> packet-forward -> transfer stack; users move native coins (incl. '/'-segmented names from a grammar) and vouchers over multiple hops and back; relayers drop, delay, duplicate, replay, reorder and race relays; receivers may be invalid or blocked (error acks), timeouts tight. After every block on every chain: (1) the real change of every bank balance and supply equals the sum of the ICS-20 model's predictions for the committed transactions; (2) for every channel end and escrowed denomination: escrow (net of donations) = voucher supply on the peer + amounts in flight in either direction; (3) native supplies never change. Non-trivial case = distinct (route kind, alias?, burn?, denomination shape) sends, mints by hop count, returns, refunds by cause",
+		[]string{"xfer:", "mint:", "return:", "refund:"}, 96, 1400,
+		func(o *CoreOptions, r *rand.Rand, tier string) { tokenOptions(o, r) },
+		func(ck *sim.Check) {
+			tokAssume(ck)
+			ck.RequiredProbes = []string{"channel_equations_checked", "transfer_minted", "transfer_unwound", "transfer_refunded_tmo", "transfer_refunded_error-ack"}
+			ck.RequiredFaults = []string{"relay.dup", "relay.replay"}
+		})
+	coreCheck("C31",
+		"same token worlds plus direct donations to escrow accounts; after every block the queried total-escrow-for-denom equals the model's ledger of IBC escrows minus releases (refunds, unwinding receives) per denomination, is never negative and never exceeds the combined balance of the transfer escrow accounts. Non-trivial case = distinct escrow/release/donation shapes",
+		[]string{"xfer:", "return:", "refund:", "donate:"}, 96, 1400,
+		func(o *CoreOptions, r *rand.Rand, tier string) { tokenOptions(o, r); o.WDonate = 8 },
+		func(ck *sim.Check) {
+			tokAssume(ck)
+			ck.RequiredProbes = []string{"donation_to_escrow_account", "transfer_unwound", "transfer_refunded_tmo"}
+		})
+	coreCheck("C32",
+		"token worlds biased to failing transfers: invalid and blocked receivers (error acks), tight height and time timeouts, racing timeout vs receive, native / voucher / '/'-named denominations, v1 / alias / v2. Per committed refund transaction the real bank diff must be exactly: original sender + amount of the ORIGINAL bank denomination, escrow - amount (or supply + amount when the send burned); a successful ack changes nothing; after faults stop and an honest relayer has drained, every failed transfer has been refunded (a refund that can never be accepted is a violation). Non-trivial case = distinct (route kind, cause, burn?, denomination shape) refunds",
+		[]string{"refund:"}, 96, 1400,
+		func(o *CoreOptions, r *rand.Rand, tier string) { tokenOptions(o, r); o.TightTmo = 60; o.WEarlyTmo = 10 },
+		func(ck *sim.Check) {
+			tokAssume(ck)
+			ck.RequiredProbes = []string{"transfer_refunded_tmo", "transfer_refunded_error-ack"}
+		})
+	coreCheck("C33",
+		"token worlds biased to round trips: every voucher a user holds tends to be sent back over the channel it came from (also after onward hops), for native denominations drawn from the '/'-segment grammar. Oracle: a returning voucher must be accepted (valid receiver) and the origin must release exactly the original native denomination from that channel's escrow to the receiver (bank diff vs model); after the drain no return is stuck. Non-trivial case = distinct (route kind, released denomination shape)",
+		[]string{"return:"}, 96, 1400,
+		func(o *CoreOptions, r *rand.Rand, tier string) { tokenOptions(o, r); o.TightTmo = 10; o.WEarlyTmo = 2 },
+		func(ck *sim.Check) {
+			tokAssume(ck)
+			ck.RequiredProbes = []string{"transfer_unwound"}
+		})
+	coreCheck("C49",
+		"token worlds with attackers: v2 MsgSendPacket whose transfer payload names another account as sender, MsgTransfer signed by one account naming another, relays submitted by arbitrary accounts. Per block: every non-module account whose balance decreased signed (or authorised) a transaction of that block; credits from receive/ack/timeout go only to the packet's receiver or refund its original sender (bank diff vs model), whoever relays. Non-trivial case = distinct attack shapes and refund/credit shapes",
+		[]string{"attack:", "refund:", "mint:", "return:"}, 96, 1400,
+		func(o *CoreOptions, r *rand.Rand, tier string) { tokenOptions(o, r); o.WAttack = 10 },
+		func(ck *sim.Check) {
+			tokAssume(ck)
 		})
 
 	coreCheck("C14",
